@@ -100,7 +100,18 @@ class RangeFacet:
                     n.args[0].args[0].attr == "astropy.constants.R_earth.to":
                 return Iv(6000.0, 6500.0)
             if n.attr == "eps" and n.args[0].op == "Call":
-                return Iv(0.0, 1e-6, lo_open=True)
+                # numpy.finfo(<type>).eps: exact for the IEEE types, a bound otherwise
+                fc = n.args[0]
+                if fc.args and fc.args[0].op == "Ext" and fc.args[0].attr == "numpy.finfo" and len(fc.args) >= 2 and \
+                        fc.args[1].op == "Ext":
+                    t = fc.args[1].attr.split(".")[-1]
+                    eps = {"float64": 2.220446049250313e-16, "double": 2.220446049250313e-16,
+                           "float": 2.220446049250313e-16, "float_": 2.220446049250313e-16,
+                           "float32": 1.1920928955078125e-07, "single": 1.1920928955078125e-07,
+                           "float16": 0.0009765625, "half": 0.0009765625}.get(t)
+                    if eps is not None:
+                        return Iv(eps, eps)
+                return Iv(0.0, 1e-3, lo_open=True)
             if n.attr in ("T",):
                 return self.of(n.args[0])
             return TOPI
